@@ -56,6 +56,15 @@ var rangesExpected = []string{
 	"EnumRanges_CheckValid", "FieldRanges_CheckValid", "FieldRanges_CheckOverlap",
 }
 
+// entry points of the correspondence run: name, binders, argument names, result type without outcome
+var rangesRun = []struct{ name, params, args, base string }{
+	{"EnumRanges_Has", "(s : list (Z * Z)) (n : Z)", "s n", "bool"},
+	{"FieldRanges_Has", "(s : list (Z * Z)) (n : Z)", "s n", "bool"},
+	{"EnumRanges_CheckValid", "(s : list (Z * Z))", "s", "go_err"},
+	{"FieldRanges_CheckValid", "(s : list (Z * Z)) (ms : bool)", "s ms", "go_err"},
+	{"FieldRanges_CheckOverlap", "(p : list (Z * Z)) (q : list (Z * Z))", "p q", "go_err"},
+}
+
 var wsRun = regexp.MustCompile(`\s+`)
 var nonAlnum = regexp.MustCompile(`[^A-Za-z0-9]+`)
 
@@ -372,6 +381,21 @@ func extractRanges(repo string) error {
 			head += " " + f.Params
 		}
 		fmt.Fprintf(&sb, "%s : %s :=\n%s.\n", head, f.Result, f.Body)
+	}
+	// run_<F>: what the correspondence executes.  Always of the same type (outcome-typed), so that the
+	// extracted driver still builds when F left the translatable subset (then run_<F> = Panic: every go_*
+	// case is a mismatch and the harness's own predicate still searches for a concrete failing input).
+	sb.WriteString("\n(* ---- entry points of the correspondence run (ops go_has, go_cvalid, go_coverlap) ---- *)\n")
+	for _, r := range rangesRun {
+		f := byName[r.name]
+		body := "Panic"
+		if f != nil && f.Unsupported == "" && strings.TrimPrefix(f.Result, "outcome ") == r.base && strings.Count(f.Params, "(v_") == len(strings.Fields(r.args)) {
+			body = "go_" + r.name + " " + r.args
+			if !f.MayPanic {
+				body = "Val (" + body + ")"
+			}
+		}
+		fmt.Fprintf(&sb, "Definition run_%s %s : outcome %s := %s.\n", r.name, r.params, r.base, body)
 	}
 	var missing []string
 	for _, n := range rangesExpected {
